@@ -7,6 +7,7 @@ import (
 	"fmt"
 	"math"
 	"math/bits"
+	"slices"
 
 	"github.com/pinealctx/neptune/bitmap1024"
 	"pgregory.net/rapid"
@@ -604,8 +605,22 @@ func Exec1024(c Case1024) *vkit.Result {
 			checkIter(res, sp, mem, c.Pos, c.Slack, c.Add, c.N, ctx)
 		}
 		if c.N >= 0 {
-			checkGetN(res, "Bit1024.GetNAsI64", false, mem, c.N, b.GetNAsI64(c.N), ctx)
-			checkGetN(res, "Bit1024.RGetNAsI64", true, mem, c.N, b.RGetNAsI64(c.N), ctx)
+			// a list handed out belongs to the caller: it reads the same after the later calls (of this bitmap and of its
+			// complement, which has other members)
+			first, firstR, first16 := b.GetNAsI64(c.N), b.RGetNAsI64(c.N), b.GetNAsI16(c.N)
+			copy1, copyR, copy16 := append([]int64(nil), first...), append([]int64(nil), firstR...), append([]int16(nil), first16...)
+			defer func(ctx string) {
+				if res.Fail != nil {
+					return
+				}
+				rev := b.Reverse()
+				_, _, _ = rev.GetNAsI64(c.N), rev.RGetNAsI64(c.N), rev.GetNAsI16(c.N)
+				if !slices.Equal(first, copy1) || !slices.Equal(firstR, copyR) || !slices.Equal(first16, copy16) {
+					res.Failf("Bit1024.GetNAs/retained", "%s: a list returned by GetNAsI64/RGetNAsI64/GetNAsI16(%d) changed after later calls: %v / %v / %v, were %v / %v / %v", ctx, c.N, first, firstR, first16, copy1, copyR, copy16)
+				}
+			}(ctx)
+			checkGetN(res, "Bit1024.GetNAsI64", false, mem, c.N, first, ctx)
+			checkGetN(res, "Bit1024.RGetNAsI64", true, mem, c.N, firstR, ctx)
 			checkGetN(res, "Bit1024.GetNAsI32", false, mem, c.N, toI64(b.GetNAsI32(c.N)), ctx)
 			checkGetN(res, "Bit1024.RGetNAsI32", true, mem, c.N, toI64(b.RGetNAsI32(c.N)), ctx)
 			checkGetN(res, "Bit1024.GetNAsI16", false, mem, c.N, toI64(b.GetNAsI16(c.N)), ctx)
